@@ -96,7 +96,12 @@ Definition prop_ok (c : pcase) : bool :=
     forallb (event_ok cf idx g) evs && nodup_s keys &&
     forallb (fun e => negb (is_tmp (fst e))) final &&
     (* sources: every initial file that is not the output of a run is unchanged *)
-    forallb (fun e => str_in (fst e) outs || match mtime_of final (fst e) with Some m => m =? snd e | None => false end) init &&
+    forallb (fun e => match mtime_of final (fst e) with
+                      | Some m => (m =? snd e) || str_in (fst e) outs    (* an output written over a file that was there *)
+                      | None => false                                     (* nothing that was there may be gone *)
+                      end) init &&
+    (* a group that is not contiguous from 00/01 or has duplicates makes processing report an error *)
+    (forallb (fun kc => validate (snd kc)) g || Nat.eqb (pc_class c) 1) &&
     (* listed paths are outputs carrying the first chapter's time *)
     forallb (fun f =>
                existsb (fun '(argv, concat, _) =>
